@@ -1,4 +1,5 @@
 """C19 — errors carry the right line, never derail the music, and the log stays bounded: streams."""
+import re
 from ..core import Stream, hx, unhx
 from .. import mml
 
@@ -196,10 +197,12 @@ def streams(tier, rng, P, only=None, cases=None):
                 cs.append(dict(req="run " + hx(src), src=src, show="%d offending characters" % nerr, kind="lexbound", n=nerr, key="m%d" % i))
             elif k < 0.9:
                 head = render(valid_lines(rng))
-                tail = rng.choice(["e f g", "!!! ZZZ", "PRINT(1)", "TR(5) c", "[", "{"])
+                tail = rng.choice(["e f g", "!!! ZZZ", "PRINT(1)", "TR(5) c", "[", "{", "Function Tempo(){ g }", "FUNCTION Foo(){ g } Foo()", "\nFunction Foo(){ g }", "\nFUNCTION Foo(A){ g }\nFUNCTION Foo(){ a }"])
                 kw = rng.choice(["End", "END"])
-                src = head + "\n" + kw + " " + tail
-                cs.append(dict(req="compile2 %s %s" % (hx(src), hx(head + "\n")), src=src, show=src[:300], kind="end", key="m%d" % i))
+                headerr = rng.random() < 0.3
+                if headerr: head = rng.choice(["Foo c d e", "c Foo() d", "Foo(1) e", "l8 c Foo\nd e"])      # a word the ignored tail would define
+                src = head + "\n" + kw + rng.choice([" ", "\n", " ; "]) + tail
+                cs.append(dict(req="compile2 %s %s" % (hx(src), hx(head + "\n")), src=src, show=src[:300], kind="end", headerr=headerr, key="m%d" % i))
             else:
                 src = rng.choice(["FOR(INT I=0;I<2;I++){c}", "PRINT(1,,2)", "INT A=(1 ? 2)", "WHILE(0){ }", "Foo(1)", "c !d", "System.Unknown(1)", "PRINT(MID({a},1))"])
                 cs.append(dict(req="run " + hx(src), src=src, show=src, kind="stdout", key="m%d" % i))
@@ -225,7 +228,9 @@ def streams(tier, rng, P, only=None, cases=None):
             if c["n"] > 30 and "Unknown Character" in got[30]: return ("violation", "the 31st entry is not the too-many-errors notice: " + got[30][:80])
         elif c["kind"] == "end":
             if f["bin1"] != f["bin2"]: return ("violation", "text after End changed the output")
-            if entries(f["log1"]): return ("violation", "text after End was reported: " + str(entries(f["log1"]))[:160])
+            nonear = lambda h: [re.sub(r' near ".*$', "", e, flags=re.S) for e in entries(h)]      # the quoted context of a message may show the following text
+            if nonear(f["log1"]) != nonear(f["log2"]): return ("violation", "text after End changed the log: " + str(entries(f["log1"]))[:160])
+            if entries(f["log1"]) and not c.get("headerr"): return ("violation", "text after End was reported: " + str(entries(f["log1"]))[:160])
         return None
     s2 = Stream("misc", cases if (cases and only == "misc") else mk_misc(), lambda c, st, f: [], misc_judge,
                 lambda c, i, m: (c["kind"], i[1].get("log", i[1].get("log1"))) if i[0] == "ok" else None, "PRINT lines, log bounds, End, stdout", timeout_case=20.0, capture_stdout=True)
